@@ -143,6 +143,8 @@ class Fn:
             if b['kind'] == 'MemberExpr':
                 bn = self._base_name(b['inner'][0])
                 if bn is not None:
+                    if f'O:{bn}_{b["name"]}_{ie}' in env:
+                        return env[f'O:{bn}_{b["name"]}_{ie}']
                     return self._extra(f'{bn}_{b["name"]}_{ie}', n['type']['qualType'], env)
             raise Unsupported('array subscript')
         if k == 'UnaryOperator':
@@ -252,6 +254,19 @@ class Fn:
         elif lhs['kind'] == 'DeclRefExpr':
             key = lhs['referencedDecl']['name']
             base = key
+        elif lhs['kind'] == 'ArraySubscriptExpr':
+            b0, idx = lhs['inner']
+            ie = self.expr(idx, env)
+            if not re.fullmatch(r'\d+', ie):
+                raise Unsupported('write with a non-literal array index')
+            b = b0
+            while b['kind'] in ('ImplicitCastExpr', 'ParenExpr'):
+                b = b['inner'][0]
+            bn = self._base_name(b['inner'][0]) if b['kind'] == 'MemberExpr' else None
+            if bn is None:
+                raise Unsupported('assignment target')
+            key = f'O:{bn}_{b["name"]}_{ie}'
+            base = key[2:]
         else:
             raise Unsupported('assignment target')
         v = self.fresh(base)
@@ -378,8 +393,52 @@ class Fn:
                 return pre + self.stmts([body], env2, after)
             raise Unsupported('call stmt')
         if kind == 'ForStmt':
-            raise Unsupported('for loop')
+            # for (int i = A; i <op> B; i++ / i--) body   with literal A, B: unrolled; the body must not contain break / continue / return
+            init, _condvar, condn, inc, body = (s['inner'] + [None] * 5)[:5]
+            try:
+                vd = init['inner'][0]
+                var = vd['name']
+                a = int(self.expr(vd['inner'][-1], env).strip('()'))
+                c = condn
+                while c['kind'] in ('ImplicitCastExpr', 'ParenExpr'):
+                    c = c['inner'][0]
+                op = c['opcode']
+                lhs = c['inner'][0]
+                while lhs['kind'] in ('ImplicitCastExpr', 'ParenExpr'):
+                    lhs = lhs['inner'][0]
+                assert lhs['kind'] == 'DeclRefExpr' and lhs['referencedDecl']['name'] == var
+                b = int(self.expr(c['inner'][1], env).strip('()'))
+                assert inc['kind'] == 'UnaryOperator' and inc['opcode'] in ('++', '--')
+                d = 1 if inc['opcode'] == '++' else -1
+            except (KeyError, IndexError, ValueError, AssertionError, TypeError):
+                raise Unsupported('for loop that is not `for (int i = A; i op B; i++/--)` with literal bounds')
+            if self._has_kind(body, ('BreakStmt', 'ContinueStmt', 'ReturnStmt')):
+                raise Unsupported('break / continue / return inside a for loop')
+            test = {'<': lambda i: i < b, '<=': lambda i: i <= b, '>': lambda i: i > b, '>=': lambda i: i >= b, '!=': lambda i: i != b}[op]
+            iters, i = [], a
+            while test(i):
+                iters.append(i); i += d
+                if len(iters) > 64:
+                    raise Unsupported('for loop with more than 64 iterations')
+            saved_var = env.get(var)
+
+            def run(k, e):
+                if k == len(iters):
+                    e2 = dict(e)
+                    if saved_var is None:
+                        e2.pop(var, None)
+                    else:
+                        e2[var] = saved_var
+                    return cont(e2)
+                e2 = dict(e); e2[var] = str(iters[k]) if iters[k] >= 0 else f'({iters[k]})'
+                return self.stmts([body], e2, lambda e3: run(k + 1, e3))
+            return run(0, env)
         raise Unsupported('stmt kind ' + kind)
+
+    def _has_kind(self, n, kinds):
+        if n.get('kind') in kinds:
+            return True
+        return any(self._has_kind(c, kinds) for c in n.get('inner', []) if isinstance(c, dict))
 
     def _has_return(self, n):
         if n.get('kind') == 'ReturnStmt':
@@ -391,6 +450,9 @@ class Fn:
         st = f'(mk_{self.cls} {fs})' if self.fields else 'tt'
         if self.is_ctor:
             return st
+        outs = sorted((k for k in env if k.startswith('O:')), key=lambda k: (re.sub(r'_\d+$', '', k), int(k.rsplit('_', 1)[1])))
+        if ret is None and self.pure and outs:
+            return '[' + '; '.join(env[k] for k in outs) + ']'
         if ret is None:
             return st
         if self.pure:
@@ -737,6 +799,8 @@ def main():
         ('Trigon', lambda: do_class_static('Trigon', D + 'trigon.hpp', ['sin', 'cos'], ret_tables={'sin': 'sins_', 'cos': 'coss_'})),
         ('parseTempInLe', lambda: do_function('parseTempInLe', D + 'basic_attr.hpp')),
         ('parseTempInBe', lambda: do_function('parseTempInBe', D + 'basic_attr.hpp')),
+        ('parseTimeUTCWithUs', lambda: do_function('parseTimeUTCWithUs', D + 'basic_attr.hpp')),
+        ('createTimeUTCWithUs', lambda: do_function('createTimeUTCWithUs', D + 'basic_attr.hpp')),
     ]
 
     def do_class_static(cls, inc, names, ret_tables=None):
